@@ -55,7 +55,7 @@ CORPUS = [
  ("padding mod over all 20 characters of MinInt64 (fixed by 46ea909)",
   case([rule('p', 'mycat_padding_mod', locs=[1, 2], slices=['s0', 's1'], dbs=['db_[0-2]'], pf='1', plen='20', mb='0', me='20')],
        keys=(MIN, MIN + 1, -7, 7, '-9223372036854775808'))),
- ("global rule with more slices than the namespace (open finding global-slice-index-out-of-range)",
+ ("global rule with more slices than the namespace: slice index 2 of a 2-element list before c29cd53",
   case([rule('g', 'global', locs=[1, 1, 1], slices=['s1', 's0', 's0'])])),
  ("month range whose first month is 25: Verify rejects, NewRouter alone panics on the empty month list",
   case([rule('mo', 'date_month', slices=['s0'], dates=['201525-201601'])])),
@@ -79,6 +79,8 @@ CORPUS = [
  ("database range with equal bounds (refused) where the count would fit",
   case([rule('mm', 'mycat_mod', locs=[1, 1], slices=['s0', 's1'], dbs=['db[1-1]', 'x'])])),
  ("", case([rule('g', 'global', locs=[1], slices=['s0'], dbs=['db[1-1]'])])),
+ ("global rule on a subset / another order of the namespace slices keeps its configured slices (c29cd53)",
+  case([rule('g', 'global', locs=[1, 2], slices=['s2', 's1'])], slices=('s0', 's1', 's2'))),
  ("murmur with no virtual buckets", case([rule('mu', 'mycat_murmur', locs=[1, 1], slices=['s0', 's1'], dbs=['a', 'b'], seed='1', vbt='0')])),
 ]
 
